@@ -1,5 +1,12 @@
 # property id -> claim text (filled as checks are admitted; everything else is listed under NA with the reason)
 CLAIMS = {
+ 'C02': {'technique': 'static analysis: interprocedural taint->sink guard dominance on the CFG, recursion-guard and abort reachability on the call graph, loop progress, sticky-status path rule',
+         'text': 'Decides the structural necessary conditions of parser safety for all inputs at once: every wire-derived value reaching a child-reader budget, copy length, pointer offset/index, '
+                 'or (inside the Message parsers) an allocation size is bounded by a trusted quantity on a dominating edge and tainted arithmetic is overflow-checked; reader primitives check themselves; '
+                 'no unguarded recursion or unconditional abort is reachable from the parse entry points; parser loops progress; Unflatten implementations consult the sticky status. '
+                 'Scope: C++ Message/templated parsers, all iogateway input paths, ZLibCodec, String/ByteBuffer, C MiniMessage and both C gateways. The MicroMessage in-place reader and the WebSocket header '
+                 'state machine are listed as not decided.',
+         'note': 'A dominating comparison against an untainted quantity is taken as a meaningful bound (no numeric buffer-size computation). Known findings: unbounded parse recursion (F5 x3), RawData gateway recursion (F8).'},
  'C07': {'technique': 'static analysis: loop-progress + cursor-consistency on the CFG, recursion-guard and abort reachability on the class-hierarchy call graph',
          'text': 'Decides the structural part of "no handler hangs or crashes": every loop reachable from the reflect-session command dispatchers makes progress on every CFG cycle '
                  '(incl. the remove-at-cursor idiom), every reachable recursive component is depth-guarded or bounded by a guarded structure, no unconditional abort body is reachable. '
@@ -7,6 +14,6 @@ CLAIMS = {
          'note': 'Assumes const methods with by-value/const-ref parameters do not change what loop tests read; logging and destructor hubs are cut from the recursion graph.'},
 }
 _PENDING = 'check under construction in this session (see DESIGN.md section 4); not claimed until its rule is admitted'
-NA = {pid: _PENDING for pid in ['C01','C02','C03','C04','C05','C06','C08','C10','C11','C12','C13','C14','C15','C16','C17','C18','C19','C20']}
+NA = {pid: _PENDING for pid in ['C01','C03','C04','C05','C06','C08','C10','C11','C12','C13','C14','C15','C16','C17','C18','C19','C20']}
 NA['C09'] = ('refinement of an ideal ordered map over operation histories with live iterators: its mechanisms are co-located with the mutations they protect inside single template functions; '
              'no sound structural necessary condition was found that is not either compiler-enforced or a frozen-fragment match (DESIGN.md section 4, C09)')
